@@ -50,6 +50,32 @@ def invoke_method(lw, node, args):
     return 'ev_invoke(%s, %s)' % (args[0], args[1])
 
 
+INT_KEYS = {'qint8': 'S8', 'quint8': 'U8', 'qint16': 'S16', 'quint16': 'U16', 'qint32': 'S32', 'quint32': 'U32', 'qint64': 'S64', 'quint64': 'U64',
+            'signed char': 'S8', 'unsigned char': 'U8', 'short': 'S16', 'unsigned short': 'U16', 'int': 'S32', 'unsigned int': 'U32',
+            'long': 'S64', 'unsigned long': 'U64', 'long long': 'S64', 'unsigned long long': 'U64'}
+
+
+def minmax(which):
+    """qMin / qMax / std::min / std::max on integers: a pure expression of the operands (each evaluated once)"""
+    def rule(lw, node, args):
+        t = lw.ntype(lw.skip(node))
+        k = INT_KEYS.get(t)
+        if k is None or len(args) != 2:
+            raise Unsupported('%s on %s' % (which, t))
+        return '((%s)c_%s_%s64(%s, %s))' % (t, which, 'u' if k[0] == 'U' else 's', args[0], args[1])
+    return rule
+
+
+def parse_int(lw, node, args):
+    """parseInt<T>(s) of QXmppUtils, through the contract it is verified against in units/C01 (A-PARSEINT)"""
+    t = lw.ntype(lw.skip(node))
+    if not re.fullmatch(r'Opt[SU]\d+', t):
+        raise Unsupported('parseInt returning %s' % t)
+    tmp = lw.newtmp()
+    lw.pre.append('%s %s; parseInt_%s(&%s, %s);' % (t, tmp, t[3:], tmp, args[0]))
+    return tmp
+
+
 def profile():
     base = lambda f: ('expr', '((const QXmppIq *){0})->' + f)
     setb = lambda f: ('expr', '((QXmppIq *){0})->' + f + ' = {1}')
@@ -86,9 +112,6 @@ def profile():
         'ctor:QXmppIbbDataIq()': ('fn', 'QXmppIbbDataIq_ctor'),
         'ctor:QXmppIbbCloseIq()': ('fn', 'QXmppIbbCloseIq_ctor'),
         'ctor:QXmppStanzaError(int,int)': ('fn', 'QXmppStanzaError_ctor'),
-        # A-FILEINFO
-        'QXmppTransferFileInfo::size/0': ('expr', '({0})->size'),
-        'QXmppTransferFileInfo::hash/0': ('expr', '({0})->hash'),
         # event log
         '*::client/0': ('const', '0'),
         '*::sendPacket/1': send_packet,
@@ -109,6 +132,19 @@ def profile():
         'QTcpSocket::flush/0': ('const', 'true'),
         'QTcpSocket::close/0': ('fn', 'QTcpSocket_close'),
         'fn:as_const/1': ('arg', 0),
+        # integer vocabulary
+        'fn:qMin/2': minmax('min'), 'fn:qMax/2': minmax('max'), 'fn:min/2': minmax('min'), 'fn:max/2': minmax('max'),
+        'fn:parseInt/1': parse_int,
+        # QXmppTransferFileInfo: the shared payload is held by value (A-FILEINFO-SHARED); size()/hash() are the real getters
+        'op->:QXmppTransferFileInfoPrivate': ('expr', '{0}'),
+        'QXmppTransferFileInfo::size/0': ('callee', 'QXmppTransferFileInfo_size'),
+        'QXmppTransferFileInfo::hash/0': ('callee', 'QXmppTransferFileInfo_hash'),
+        # QXmppTransferFileInfo::parse: Qt conversions (qtmodel/conv.h); the date helper of QXmppUtils is outside this property
+        'qstr::toLongLong/0': ('expr', 'qstr_toLongLong({0}, NULL)'),
+        'qstr::toULongLong/0': ('expr', 'qstr_toULongLong({0}, NULL)'),
+        'qstr::toLatin1/0': ('fn', 'qstr_toLatin1'),
+        'fn:fromHex/1': ('fn', 'qbytes_fromHex'),
+        'fn:datetimeFromString/1': ('fn', 'QXmppUtils_datetimeFromString'),
         'rangefor:QListJobs': rangefor_indexed('({r})->n', 'QListJobs_at({r}, {i})'),
     }
     types = {
@@ -120,17 +156,27 @@ def profile():
         'QList<QXmppTransferJob*>': 'QListJobs',
         'QXmppIq': 'QXmppIq', 'QXmppIbbDataIq': 'QXmppIbbDataIq', 'QXmppIbbOpenIq': 'QXmppIbbOpenIq', 'QXmppIbbCloseIq': 'QXmppIbbCloseIq',
         'QXmppStanza::Error': 'QXmppStanzaError', 'QXmppTransferFileInfo': 'QXmppTransferFileInfo',
+        'QSharedDataPointer<QXmppTransferFileInfoPrivate>': 'QXmppTransferFileInfoPrivate', 'QXmppTransferFileInfoPrivate': 'QXmppTransferFileInfoPrivate', 'QDateTime': 'qdt',
         'QByteArray': 'qbytes', 'QCryptographicHash': 'qhash', 'QIODevice': 'QIODevice', 'QTcpSocket': 'QTcpSocket',
         'Qt::ConnectionType': 'int', 'QObject': 'void',
     }
     for e in ENUMS:
         types[e] = 'int'
+    opt_types = set()
+    for cpp, k in list(INT_KEYS.items()) + [('uint8_t', 'U8'), ('uint16_t', 'U16'), ('uint32_t', 'U32'), ('uint64_t', 'U64'), ('int8_t', 'S8'), ('int16_t', 'S16'), ('int32_t', 'S32'), ('int64_t', 'S64')]:
+        types['std::optional<%s>' % cpp] = 'Opt' + k
+        opt_types.add('Opt' + k)
+    for o in opt_types:
+        calls['%s::value_or/1' % o] = ('expr', '({v0}.has ? {v0}.v : {1})')
+        calls['%s::has_value/0' % o] = ('expr', '{v0}.has')
+        calls['%s::operator bool/0' % o] = ('expr', '{v0}.has')
+        calls['op*:%s' % o] = ('expr', '{v0}.v')
     p = opaque_profile(
         types=types,
         class_types={'QXmppTransferManager', 'QXmppTransferManagerPrivate', 'QXmppTransferJobPrivate', 'QXmppTransferJob', 'QListJobs', 'QXmppIq',
-                     'QXmppIbbDataIq', 'QXmppIbbOpenIq', 'QXmppIbbCloseIq', 'QXmppStanzaError', 'QXmppTransferFileInfo', 'QIODevice', 'QTcpSocket'},
+                     'QXmppIbbDataIq', 'QXmppIbbOpenIq', 'QXmppIbbCloseIq', 'QXmppStanzaError', 'QXmppTransferFileInfo', 'QXmppTransferFileInfoPrivate', 'QIODevice', 'QTcpSocket'} | opt_types,
         calls=calls,
-        pure_fns={'client', 'hash', 'fileSize', 'size', 'state', 'method'},
+        pure_fns={'client', 'hash', 'fileSize', 'size', 'state', 'method', 'firstChildElement', 'text'},
     )
     p.default_args['QGenericArgument'] = '0'
     return p
@@ -148,6 +194,9 @@ FUNCS = {
     'o_bs':       (IBB, 'QXmppIbbOpenIq', 'blockSize', 'QXmppIbbOpenIq_blockSize', 'QXmppIbbOpenIq', None),
     'c_sid':      (IBB, 'QXmppIbbCloseIq', 'sid', 'QXmppIbbCloseIq_sid', 'QXmppIbbCloseIq', None),
     'c_setsid':   (IBB, 'QXmppIbbCloseIq', 'setSid', 'QXmppIbbCloseIq_setSid', 'QXmppIbbCloseIq', None),
+    'fi_size':    (TM, 'QXmppTransferFileInfo::', 'size', 'QXmppTransferFileInfo_size', 'QXmppTransferFileInfo', None),
+    'fi_hash':    (TM, 'QXmppTransferFileInfo::', 'hash', 'QXmppTransferFileInfo_hash', 'QXmppTransferFileInfo', None),
+    'fi_parse':   (TM, 'QXmppTransferFileInfo::', 'parse', 'QXmppTransferFileInfo_parse', 'QXmppTransferFileInfo', 'fileinfo_parse.spec'),
     'method':     (TM, 'QXmppTransferJob::', 'method', 'QXmppTransferJob_method', 'QXmppTransferJob', None),
     'state':      (TM, 'QXmppTransferJob::', 'state', 'QXmppTransferJob_state', 'QXmppTransferJob', None),
     'filesize':   (TM, 'QXmppTransferJob::', 'fileSize', 'QXmppTransferJob_fileSize', 'QXmppTransferJob', None),
@@ -214,9 +263,15 @@ class Unit:
         for cls in ('QXmppIbbOpenIq', 'QXmppIbbCloseIq', 'QXmppIbbDataIq'):
             rec, _ = ctx.emit_record(src(IBB), cls, cls, cls, self.prof)
             out.append(rec.replace('{\n', '{\n  QXmppIq base;\n', 1))
+        rec, _ = ctx.emit_record(src(TM), 'QXmppTransferFileInfoPrivate', 'QXmppTransferFileInfoPrivate', 'QXmppTransferFileInfoPrivate', self.prof)
+        out.append(rec)
+        out.append('typedef struct QXmppTransferFileInfo { QXmppTransferFileInfoPrivate d; } QXmppTransferFileInfo;')
         rec, fields = ctx.emit_record(src(TM), 'QXmppTransferJobPrivate', 'QXmppTransferJobPrivate', 'QXmppTransferJobPrivate', self.prof, opaque_ok=True)
         # ghost field: number of blocks accepted (receiver) / sent (sender) so far -- the specification's own counter
         out.append(rec.replace('\n}', '\n  unsigned long long gh_blocks; /* ghost */\n}', 1))
+        # type invariant of well-formed jobs: enum-typed members hold declared enumerators (the harnesses quantify over arbitrary member values)
+        inv, self.enum_fields = ctx.enum_field_invariant(src(TM), 'QXmppTransferJobPrivate', 'QXmppTransferJobPrivate')
+        out.append('#define JOB_ENUMS_OK(pp) (%s)' % inv.replace('%s', '(pp)'))
         out.append('typedef struct QXmppTransferJob { QXmppTransferJobPrivate *d; } QXmppTransferJob;')
         out.append('typedef struct QListJobs { int n; int iw; QXmppTransferJob *w; QXmppTransferJob *o; } QListJobs;')
         rec, _ = ctx.emit_record(src(TM), 'QXmppTransferManagerPrivate', 'QXmppTransferManagerPrivate', 'QXmppTransferManagerPrivate', self.prof, opaque_ok=True)
@@ -227,6 +282,7 @@ class Unit:
     def assemble(self, name, inline, protos, main, harness):
         """C file: models + real records + enums + inlined real helpers + contracts of replaced callees + the function under contract"""
         b = self.b
+        inline = [k for k in ('fi_size', 'fi_hash') if k != main and k not in inline and k not in protos] + list(inline)
         body = ''.join(self.lower(k) + '\n' for k in inline)
         pro = ''.join(b.prototype(self.lower(k)) for k in protos)
         mtxt = self.lower(main)
@@ -239,7 +295,7 @@ class Unit:
             auto = ''.join(self.helpers[h] for h in more) + auto
         for e in ENUMS:
             b.need_enums.setdefault((os.path.join(REPO, TM), ()), {}).setdefault(e, set())
-        c = '#include "opaque.h"\n' + self.prof.literal_ids.table() + b.subst(rd('types.h')) + b.context() + '\n' + self.records() + b.subst(rd('model.h')) + \
+        c = '#include "conv.h"\n' + self.prof.literal_ids.table() + b.subst(rd('types.h')) + b.context() + '\n' + self.records() + b.subst(rd('model.h')) + \
             '/* ---- contracts of replaced callees ---- */\n' + pro + '/* ---- real helpers, inlined ---- */\n' + body + \
             ('/* ---- repository helpers lowered automatically (real code, inlined) ---- */\n' + auto if auto else '') + '/* ---- function under contract ---- */\n' + mtxt + '\n' + harness
         return b.write(name + '.c', c), c
@@ -311,15 +367,29 @@ def build(work, tier):
     # ---------------------------------------------------------------- 16-bit sequence field of the data stanza
     add('sequence', 'seq', [], [], 'const QXmppIbbDataIq *iq; QXmppIbbDataIq_sequence(iq);', 'loop-free')
     add('setSequence', 'setseq', [], [], 'QXmppIbbDataIq *iq; quint16 seq; QXmppIbbDataIq_setSequence(iq, seq);', 'loop-free')
+    # ---------------------------------------------------------------- the announced size: QXmppTransferFileInfo::parse, and its link to the verdict
+    add('fileInfo_parse', 'fi_parse', [], [], 'qdom element; QXmppTransferFileInfo_parse(&ANY_JOB()->d->fileInfo, element);',
+        'loop-free; every <file/> element (opaque DOM), every size/hash/name attribute value incl. every 64-bit size')
+    lem = b.subst(rd('lemma.h'))
+    f, c = u.assemble('lemma_announced_size', [], ['fi_parse', 'checkdata'], 'fi_size', lem)
+    ctext.append(c)
+    p = Proof('lemma_announced_size', f, 'h_lemma_announced_size', enforce=None, replace=[FUNCS['fi_parse'][3], FUNCS['checkdata'][3]], kind='complete', include_dirs=[QT],
+              timeout=300, loop_contracts=False,
+              note='over the contracts of QXmppTransferFileInfo::parse and checkData only: every offer element, every receive history (arbitrary done / hash state)')
+    p.expect_post = lem.count('"[lemma.')
+    proofs.append(p)
     models = rd('types.h') + rd('model.h')
     return {
         'proofs': proofs, 'functions': b.functions, 'dropped': b.dropped, 'fired': b.fired, 'hooks': [h['id'] + ': ' + h['emit'] for h in HOOKS],
         'assumed': [
             'A-QBYTEARRAY-OPAQUE (units/C19/types.h): a QByteArray is an opaque value id, equal ids <=> equal contents, size() an uninterpreted function (> 0 iff non-empty)',
             'A-QCRYPTOHASH: hash state is an opaque value, addData is an uninterpreted function of (state, block), result() a function of the state',
-            'A-QIODEVICE: write(b) returns -1 or 0..size(b), read(max) returns at most max bytes, close() clears the open flag; calls are logged in ghost variables',
+            'A-QIODEVICE: write(b) returns -1 or 0..size(b); read(max) on a device with `avail` bytes left returns exactly min(max(max,0), avail) of them (random-access devices); close() clears the open flag; calls are logged in ghost variables',
             'A-STANZA-ACCESSORS: QXmppStanza/QXmppIq to/from/id/type/error setters and getters store and return the field; default-constructed IQs have some non-empty id; QXmppIbbDataIq()/QXmppIbbCloseIq() construct a Set IQ with seq 0',
-            'A-FILEINFO: QXmppTransferFileInfo::size()/hash() are pure getters of the announced size and hash',
+            'A-FILEINFO-SHARED: QXmppTransferFileInfo is its QSharedDataPointer payload held by value (copy-on-write sharing not modelled); size()/hash()/parse() are lowered from the real source',
+            'A-QT-NUM / A-QT-HEX (qtmodel/conv.h): QString::toLongLong yields the number a numeral denotes (0 and !ok otherwise); toLatin1 / QByteArray::fromHex are functions of their argument',
+            'QXmppUtils::datetimeFromString is some function of the string (the date of an offer is outside this property); parseInt<T> (vocabulary only, unused by /repo here) under its contract verified in units/C01',
+            'type invariant: enum-typed members of QXmppTransferJobPrivate hold declared enumerators (generated by ctx.enum_field_invariant; required and re-established by every contract that writes them)',
             'A-JOBLIST: QList<QXmppTransferJob*> iteration visits elements 0..n-1 in order; list of any length abstracted by one witness element at an arbitrary index plus an arbitrary-valued stand-in for all others',
             'client()->sendPacket(x) and QMetaObject::invokeMethod(job, "_q_terminated", Qt::QueuedConnection) are events recorded in a log (delivery itself is Qt/the stream)',
             'representation bound: the per-job int counter is below INT_MAX and bytes done below 2^62 (precondition of the data/response handlers)',
@@ -327,7 +397,9 @@ def build(work, tier):
         ],
         'assumes': scan_assumes(models + open(os.path.join(QT, 'opaque.h')).read()),
         'not_covered': [
-            'SOCKS5 byte-stream path (QXmppSocks, QXmppByteStreamIq) and stream-initiation negotiation',
+            'SOCKS5 byte-stream path (QXmppSocks, QXmppByteStreamIq, _q_receiveData) and stream-initiation negotiation, including the copy of the parsed file info into the job (job->d->fileInfo = iq.fileInfo())',
+            'QXmppTransferFileInfo::toXml (sender side of the announced size) and the date/description members',
+            'sequential devices, for which QIODevice::read may return fewer bytes than available (the sender treats an empty read as end of data)',
             'Qt I/O devices and QCryptographicHash themselves; XML parsing/serialisation of the IBB stanzas (seq attribute, base64 payload)',
             'the induction over a whole transfer ("receiver holds a byte-for-byte copy"): every step of sender and receiver and the final verdict are proved with the invariant counter = blocks mod 65536, their composition over a block sequence is not machine-checked',
             'ibbDataIqReceived ignores the result of writeData (block acknowledged although the device refused it or wrote only part of it); the loss is caught by checkData only when a size or hash was announced -- with neither the transfer reports success',
